@@ -395,6 +395,15 @@ def _ips_program(placement: str, directive: str) -> str:
         target = "0x028000" if placement == "reloc_rom" else "0x7e2000"
         return ("*=0x008000\nstart:\n.db 7\n@=" + target + "\nrun:\n.db 1, 2\n" + d[placement] +
                 "mid:\n.db 3\n.dl run, mid\n*=0x018000\ntail:\n.db 4\n.dl start, tail\n")
+    if placement == "macro2":
+        # the delta is a macro parameter and the macro is applied twice with different deltas: the directive text
+        # given is `.include_ips 'p.ips', D`; the second application shifts by a further 0x40000
+        if not directive:
+            return "*=0x008000\nstart:\n.db 1\nmid:\n.db 3\n.dl start, mid\n"
+        path = directive.split(",")[0]
+        d = directive.split(",", 1)[1].strip()
+        return ("*=0x008000\n.macro patch(delta) {\n" + path + ", delta\n}\nstart:\n.db 1\npatch(" + d + ")\npatch(" + d +
+                " + 0x40000)\nmid:\n.db 3\n.dl start, mid\n")
     if placement == "macro":
         return ("*=0x008000\n.macro patch() {\n.db 5\n" + d["macro"] + ".db 6\n}\nstart:\n.db 1\npatch()\nmid:\n.db 3\n"
                 ".dl start, mid\n")
